@@ -394,7 +394,26 @@ def run_path(h, cfg, ctx, prefix, validate=True):
             res["hazards"].append(("raise", res["detail"], vals, st == "raised"))
         if res["status"] != "infeasible":
             res["obls"] = [(o[0], o[1], o[2]) for o in ctx.obls]
-            res["hazards"] += [(k, d, m, None) for (k, d, dec, m) in ctx.hazards]
+            # arithmetic hazards with a witness: replay on the unpatched code; confirmed = the real function raises or returns a
+            # non-finite output for those inputs (at most one replay per kind and path)
+            seenk = set()
+            for (k, d, dec, m) in ctx.hazards:
+                conf = None
+                if m is not None and k in ("div0", "log-domain", "pow-domain") and k not in seenk and (h.opts.get("decide_hazards", False) or os.environ.get("SYMX_DECIDE_HAZARDS")):
+                    seenk.add(k)
+                    st, cc = run_concrete(h, cfg, m)
+                    if st == "raised":
+                        conf = True
+                        d = f"{d} -> real code raised {cc.notes.get('raised')} at {cc.notes.get('where')}"
+                    elif st == "ok":
+                        bad = [n for n, v in cc.outputs.items() for x in (list(v) if isinstance(v, (list, tuple, _np.ndarray)) else [v])
+                               if isinstance(x, (float, _np.floating)) and not math.isfinite(x)]
+                        if bad:
+                            conf = True
+                            d = f"{d} -> non-finite output(s) {sorted(set(bad))[:4]} on the real code"
+                        else:
+                            conf = False
+                res["hazards"].append((k if conf is not True else k + "!", d, m, conf))
             res["reached"] = list(ctx.reached)
         res["decisions"] = list(ctx.decisions)
         res["steps"] = int(ctx.notes.get("steps", 0))
